@@ -30,7 +30,7 @@ RULE = (
     "quadrant of est yaw, quadrant of gt yaw, |d| bucket)"
 )
 ASSUMPTIONS = ["roll and pitch <= 0.05 rad; for tilted boxes the yaw is convention dependent to second order, tolerance 2*tilt^2", "yaw-only boxes: weight tolerance 1e-9, error tolerance 1e-9"]
-DECIDING = ["TPMetricsAph.get_value.checked", "get_heading_error.checked", "C09.negative_yaw_ego_pairs", "C09.sign_checked", "C09.frame_checked", "C09.symmetry_checked", "C09.derived_checked", "C09.result_object_checked", "C09.label_policy_checked", "C09.ap_tp_lists_checked", "C09.polygon_shapes_checked", "C09.classes_checked"]
+DECIDING = ["TPMetricsAph.get_value.checked", "get_heading_error.checked", "C09.negative_yaw_ego_pairs", "C09.sign_checked", "C09.frame_checked", "C09.symmetry_checked", "C09.derived_checked", "C09.result_object_checked", "C09.label_policy_checked", "C09.ap_tp_lists_checked", "C09.polygon_shapes_checked", "C09.classes_checked", "C09.unnormalised_checked"]
 JOBS = {"quick": 2, "thorough": 14}
 
 
@@ -235,6 +235,27 @@ def one(ctx: Ctx, workload: str, idx: int, ye: float, yg: float, ego_yaws, roll:
                 ctx.count("C09.literal_half_turn_checked")
                 weight(e_h, g_h, 0.0)  # judged by the tap against the oracle's own yaw algebra
                 weight(g_h, e_h, 0.0)
+    # orientations stored un-normalised (a quaternion read from a file with a few decimals, or any positive multiple of the
+    # unit quaternion): the same physical orientation. Queried on fresh objects, the yaw error first (the quaternion
+    # library normalises lazily and in place, so the first query is the one that sees the stored length).
+    if idx % 3 == 0 and not tilted:
+        import numpy as _np
+
+        for frame_ in ("base_link", "map"):
+            for how in ("half", "double", "rounded"):
+                e_s, g_s = pair(ye, yg, idx % 2 == 0, idx % 4 == 1, frame_, ego_yaw=ego_yaws[0])
+                for o_ in (e_s, g_s):
+                    el = _np.array(o_.state.orientation.elements, dtype=float)
+                    el = el * 0.5 if how == "half" else el * 2.0 if how == "double" else _np.round(el, 2)
+                    if float(_np.linalg.norm(el)) < 0.5:
+                        el = _np.array(o_.state.orientation.elements, dtype=float) * 3.0
+                    o_.state.orientation = _Q(el)
+                ctx.count("C09.unnormalised_checked")
+                e_s.get_heading_error(g_s)  # judged by the tap against the oracle's own (normalising) yaw algebra
+                e_s2, g_s2 = pair(ye, yg, False, False, frame_, ego_yaw=ego_yaws[0])
+                for o_ in (e_s2, g_s2):
+                    o_.state.orientation = _Q(_np.array(o_.state.orientation.elements, dtype=float) * (0.5 if how == "half" else 2.0 if how == "double" else 1.25))
+                weight(e_s2, g_s2, ego_yaws[0])
     if abs(d) < 1e-12 and not tilted:
         ctx.check(close(base, 1.0, 1e-9, 0), "C09/equal_headings_weight_not_one", dict(est_yaw=ye, gt_yaw=yg, w=base), "TPMetricsAph.get_value")
     if abs(d - math.pi) < 1e-12 and not tilted:
